@@ -205,6 +205,12 @@ func secReqs(shape string) []any {
 		return []any{map[string]any{"a": []any{}}, map[string]any{}}
 	case "empty_list":
 		return []any{}
+	case "scopes_or": // the same scheme in two alternatives with different scopes
+		return []any{map[string]any{"b": []any{"write"}}, map[string]any{"b": []any{"read"}}}
+	case "scopes_or_rev":
+		return []any{map[string]any{"b": []any{"read"}}, map[string]any{"b": []any{"read", "write"}}}
+	case "scopes_mix":
+		return []any{map[string]any{"b": []any{"read"}, "a": []any{}}, map[string]any{"b": []any{"write"}}}
 	case "undecl_or": // an alternative naming a scheme the document does not declare, then a declared one
 		return []any{map[string]any{"zz": []any{}}, map[string]any{"a": []any{}}}
 	case "undecl_and":
@@ -220,7 +226,7 @@ func secReqs(shape string) []any {
 // (the operation's, or the document's when the operation declares none) is
 // empty or has a requirement all of whose schemes are declared and accepted by
 // the callback; an empty requirement needs no authentication.
-func SecurityModel(d SDoc, accepted func(scheme string) bool) bool {
+func SecurityModel(d SDoc, accepted func(scheme string, scopes []string) bool) bool {
 	shape := d.SecOp
 	if shape == "" {
 		shape = d.SecDoc
@@ -235,8 +241,12 @@ func SecurityModel(d SDoc, accepted func(scheme string) bool) bool {
 	declared := map[string]bool{"a": true, "b": true, "c": true}
 	for _, r := range reqs {
 		ok := true
-		for name := range r.(map[string]any) {
-			if !declared[name] || !accepted(name) {
+		for name, sc := range r.(map[string]any) {
+			var scopes []string
+			for _, x := range sc.([]any) {
+				scopes = append(scopes, fmt.Sprint(x))
+			}
+			if !declared[name] || !accepted(name, scopes) {
 				ok = false
 			}
 		}
